@@ -416,6 +416,144 @@ fn eval_once(pal: &Palette, enc: &mut TTYEncoder, out: &mut Vec<u8>, role: Role,
     }
 }
 
+// ---------------------------------------------------------------------------------------------
+// the depth a terminal object really encodes with
+
+/// environments of the terminal-level pass: (TERM, COLORTERM, the emulator answers the face query like a
+/// true-colour terminal)
+const TERMINAL_ENVS: [(&str, Option<&str>, bool); 7] = [
+    ("dumb", None, false),
+    ("linux", None, false),
+    ("dumb", Some("truecolor"), false),
+    ("xterm", None, false),
+    ("xterm", Some("truecolor"), false),
+    ("xterm", Some("24bit"), false),
+    ("xterm", None, true),
+];
+
+fn terminal_colours() -> Vec<[u8; 3]> {
+    let lv = [0u8, 64, 128, 191, 255];
+    let mut v = vec![];
+    for r in lv {
+        for g in lv {
+            for b in lv {
+                v.push([r, g, b]);
+            }
+        }
+    }
+    v
+}
+
+fn role_command(role: Role, c: [u8; 3]) -> TerminalCommand {
+    let rgba = RGBA::new(c[0], c[1], c[2], 255);
+    match role {
+        Role::Fg => TerminalCommand::Face(Face { fg: Some(rgba), ..Face::default() }),
+        Role::Bg => TerminalCommand::Face(Face { bg: Some(rgba), ..Face::default() }),
+        Role::Ul => TerminalCommand::FaceModify(FaceModify { underline_color: Some(rgba), ..FaceModify::default() }),
+        Role::ModFg => TerminalCommand::FaceModify(FaceModify { fg: Some(rgba), ..FaceModify::default() }),
+        Role::ModBg => TerminalCommand::FaceModify(FaceModify { bg: Some(rgba), ..FaceModify::default() }),
+    }
+}
+
+/// split the stream at the `|` written after every command
+fn sgr_pieces(stream: &[u8]) -> Result<Vec<&[u8]>, String> {
+    let mut out: Vec<&[u8]> = stream.split(|b| *b == b'|').collect();
+    match out.pop() {
+        Some(last) if last.is_empty() => Ok(out),
+        _ => Err("the output does not end with the separator written after the last command".into()),
+    }
+}
+
+/// One environment: every colour of a 5x5x5 lattice in every role through `execute` of a terminal object opened on
+/// a pty; each emitted sequence is judged by the oracle of the depth the terminal object REPORTS
+/// (`capabilities().depth`). Returns (depth name, evaluations, failures (kind, detail, witness)).
+fn terminal_env_check(pal: &Palette, env_index: usize) -> Result<(String, u64, Vec<(String, String, Value)>), String> {
+    let (term_env, colorterm, reply) = TERMINAL_ENVS[env_index];
+    let colours = terminal_colours();
+    let mut cmds = vec![];
+    let mut meta = vec![];
+    for role in ALL_ROLES {
+        for c in &colours {
+            cmds.push(role_command(role, *c));
+            meta.push((role, *c));
+        }
+    }
+    let (depth, stream) = super::term_common::commands_on_real_terminal(term_env, colorterm, reply, &cmds)?;
+    let w = |role: Role, c: [u8; 3]| json!({"sub": "terminal", "env": env_index, "term": term_env, "colorterm": colorterm, "truecolor_reply": reply, "role": role.name(), "color": hex_color(c)});
+    let mut fails = vec![];
+    let pieces = match sgr_pieces(&stream) {
+        Ok(p) if p.len() == cmds.len() => p,
+        Ok(p) => {
+            fails.push(("terminal:command-count".to_string(), format!("TERM={term_env} COLORTERM={colorterm:?}: {} face commands were executed, the pty received {} SGR sequences", cmds.len(), p.len()), w(Role::Fg, [0, 0, 0])));
+            return Ok((depth_name(depth).to_string(), 0, fails));
+        }
+        Err(e) => {
+            fails.push(("terminal:stream".to_string(), format!("TERM={term_env} COLORTERM={colorterm:?}: {e}"), w(Role::Fg, [0, 0, 0])));
+            return Ok((depth_name(depth).to_string(), 0, fails));
+        }
+    };
+    let mut n = 0u64;
+    for ((role, c), piece) in meta.iter().zip(pieces) {
+        if *role == Role::Ul && depth == ColorDepth::Gray {
+            // no SGR form exists
+            continue;
+        }
+        n += 1;
+        if let Err(f) = judge(pal, *role, depth, *c, piece, true) {
+            fails.push((
+                format!("terminal:{}:{}:{}", depth_name(depth), role.name(), f.kind),
+                format!(
+                    "terminal object opened with TERM={term_env} COLORTERM={colorterm:?}{} reports depth {}; executing the face command for {} in role {} sent {:?}: {}",
+                    if reply { " on an emulator that answers the face query with the true-colour face" } else { "" },
+                    depth_name(depth), hex_color(*c), role.name(), crate::engine::util::esc(piece), f.detail
+                ),
+                w(*role, *c),
+            ));
+        }
+    }
+    Ok((depth_name(depth).to_string(), n, fails))
+}
+
+/// child-process entry (`snt-mc C20 --terminal`): all environments, one after the other (the environment
+/// variables belong to the process)
+pub fn terminal_main() {
+    let pal = Palette::new();
+    let mut envs = vec![];
+    for i in 0..TERMINAL_ENVS.len() {
+        match catch(|| terminal_env_check(&pal, i)) {
+            Ok(Ok((depth, n, fails))) => {
+                let fs: Vec<Value> = fails.iter().map(|(k, d, w)| json!([k, d, w])).collect();
+                envs.push(json!({"env": i, "term": TERMINAL_ENVS[i].0, "colorterm": TERMINAL_ENVS[i].1, "truecolor_reply": TERMINAL_ENVS[i].2, "reported_depth": depth, "evaluations": n, "failures": fs}));
+            }
+            Ok(Err(e)) => {
+                println!("TERMINAL {}", json!({"error": format!("environment {i}: {e}")}));
+                return;
+            }
+            Err(p) => {
+                println!("TERMINAL {}", json!({"error": format!("environment {i}: panicked: {}", p.message)}));
+                return;
+            }
+        }
+    }
+    println!("TERMINAL {}", json!({"envs": envs}));
+}
+
+fn terminal_in_child() -> Result<Value, String> {
+    let exe = std::env::current_exe().map_err(|e| format!("{e}"))?;
+    let out = std::process::Command::new(exe).arg("C20").arg("--terminal").output().map_err(|e| format!("{e}"))?;
+    let text = String::from_utf8_lossy(&out.stdout);
+    for line in text.lines() {
+        if let Some(rest) = line.strip_prefix("TERMINAL ") {
+            let v: Value = serde_json::from_str(rest).map_err(|e| format!("{e}"))?;
+            if let Some(e) = v.get("error") {
+                return Err(format!("terminal-level pass: {e}"));
+            }
+            return Ok(v);
+        }
+    }
+    Err(format!("terminal-level child produced no summary (status {})", out.status))
+}
+
 fn witness(role: Role, depth: ColorDepth, c: [u8; 3]) -> Value {
     json!({"role": role.name(), "depth": depth_name(depth), "color": hex_color(c)})
 }
@@ -758,8 +896,31 @@ pub fn run(ctx: &Ctx) -> Result<Report, String> {
         }
     }
     evals += history_evals;
+    // the depth a terminal object really encodes with (child process: real terminal objects on ptys)
+    let terminal = terminal_in_child()?;
+    let mut terminal_evals = 0u64;
+    if let Some(envs) = terminal["envs"].as_array() {
+        for e in envs {
+            terminal_evals += e["evaluations"].as_u64().unwrap_or(0);
+            let mut by_key: BTreeMap<String, (u64, String, Value)> = BTreeMap::new();
+            for f in e["failures"].as_array().cloned().unwrap_or_default() {
+                let k = f[0].as_str().unwrap_or("terminal").to_string();
+                let entry = by_key.entry(k).or_insert((0, f[1].as_str().unwrap_or("").to_string(), f[2].clone()));
+                entry.0 += 1;
+            }
+            for (k, (count, detail, w)) in by_key {
+                viol.add(k, format!("{count} face commands fail; first: {detail}"), w);
+            }
+        }
+    }
+    evals += terminal_evals;
     let mut r = Report::new("exploration");
     r.set("two_emission_histories", history_evals);
+    r.set("terminal_objects", json!({
+        "what": "terminal objects opened on ptys under every listed environment (TERM, COLORTERM, emulator answering the face query or not); 125 colours x 5 roles through execute(), each emitted sequence judged by the oracle of the depth the object reports",
+        "evaluations": terminal_evals,
+        "environments": terminal["envs"].as_array().map(|v| v.iter().map(|e| json!({"term": e["term"], "colorterm": e["colorterm"], "truecolor_reply": e["truecolor_reply"], "reported_depth": e["reported_depth"], "evaluations": e["evaluations"]})).collect::<Vec<_>>()),
+    }));
     r.set("evaluations", evals)
         .set("distinct_nontrivial", nontrivial)
         .set(
@@ -791,6 +952,17 @@ pub fn run(ctx: &Ctx) -> Result<Report, String> {
 }
 
 pub fn replay(w: &Value) -> Result<(bool, String), String> {
+    if w["sub"].as_str() == Some("terminal") {
+        let v = terminal_in_child()?;
+        let env = w["env"].as_u64().ok_or("env")?;
+        let e = v["envs"].as_array().and_then(|a| a.iter().find(|e| e["env"].as_u64() == Some(env))).cloned().ok_or("environment not run")?;
+        let fails = e["failures"].as_array().cloned().unwrap_or_default();
+        let mut detail = format!("TERM={} COLORTERM={} reported depth {}: {} of {} face commands fail\n", e["term"], e["colorterm"], e["reported_depth"], fails.len(), e["evaluations"]);
+        for f in fails.iter().take(5) {
+            detail += &format!("  [{}] {}\n", f[0].as_str().unwrap_or(""), f[1].as_str().unwrap_or(""));
+        }
+        return Ok((!fails.is_empty(), detail));
+    }
     let role = w["role"].as_str().and_then(Role::from_name).ok_or("bad role")?;
     let depth = w["depth"].as_str().and_then(depth_from_name).ok_or("bad depth")?;
     let c = w["color"].as_str().and_then(parse_hex).ok_or("bad color")?;
